@@ -205,84 +205,84 @@ pub fn parse_filesize(s: &str) -> Option<u64> {
 
     if length > 1 && string.ends_with("k") {
         return match &string[..(length - 1)].parse::<f64>() {
-            Ok(size) => Some((*size * 1024.0) as u64),
+            Ok(size) => Some((*size * 1024.0).round() as u64),
             _ => None,
         };
     }
 
     if length > 2 && string.ends_with("kb") {
         return match &string[..(length - 2)].parse::<f64>() {
-            Ok(size) => Some((*size * 1000.0) as u64),
+            Ok(size) => Some((*size * 1000.0).round() as u64),
             _ => None,
         };
     }
 
     if length > 3 && string.ends_with("kib") {
         return match &string[..(length - 3)].parse::<f64>() {
-            Ok(size) => Some((*size * 1024.0) as u64),
+            Ok(size) => Some((*size * 1024.0).round() as u64),
             _ => None,
         };
     }
 
     if length > 1 && string.ends_with("m") {
         return match &string[..(length - 1)].parse::<f64>() {
-            Ok(size) => Some((*size * 1024.0 * 1024.0) as u64),
+            Ok(size) => Some((*size * 1024.0 * 1024.0).round() as u64),
             _ => None,
         };
     }
 
     if length > 2 && string.ends_with("mb") {
         return match &string[..(length - 2)].parse::<f64>() {
-            Ok(size) => Some((*size * 1000.0 * 1000.0) as u64),
+            Ok(size) => Some((*size * 1000.0 * 1000.0).round() as u64),
             _ => None,
         };
     }
 
     if length > 3 && string.ends_with("mib") {
         return match &string[..(length - 3)].parse::<f64>() {
-            Ok(size) => Some((*size * 1024.0 * 1024.0) as u64),
+            Ok(size) => Some((*size * 1024.0 * 1024.0).round() as u64),
             _ => None,
         };
     }
 
     if length > 1 && string.ends_with("g") {
         return match &string[..(length - 1)].parse::<f64>() {
-            Ok(size) => Some((*size * 1024.0 * 1024.0 * 1024.0) as u64),
+            Ok(size) => Some((*size * 1024.0 * 1024.0 * 1024.0).round() as u64),
             _ => None,
         };
     }
 
     if length > 2 && string.ends_with("gb") {
         return match &string[..(length - 2)].parse::<f64>() {
-            Ok(size) => Some((*size * 1000.0 * 1000.0 * 1000.0) as u64),
+            Ok(size) => Some((*size * 1000.0 * 1000.0 * 1000.0).round() as u64),
             _ => None,
         };
     }
 
     if length > 3 && string.ends_with("gib") {
         return match &string[..(length - 3)].parse::<f64>() {
-            Ok(size) => Some((*size * 1024.0 * 1024.0 * 1024.0) as u64),
+            Ok(size) => Some((*size * 1024.0 * 1024.0 * 1024.0).round() as u64),
             _ => None,
         };
     }
 
     if length > 1 && string.ends_with("t") {
         return match &string[..(length - 1)].parse::<f64>() {
-            Ok(size) => Some((*size * 1024.0 * 1024.0 * 1024.0 * 1024.0) as u64),
+            Ok(size) => Some((*size * 1024.0 * 1024.0 * 1024.0 * 1024.0).round() as u64),
             _ => None,
         };
     }
 
     if length > 2 && string.ends_with("tb") {
         return match &string[..(length - 2)].parse::<f64>() {
-            Ok(size) => Some((*size * 1000.0 * 1000.0 * 1000.0 * 1000.0) as u64),
+            Ok(size) => Some((*size * 1000.0 * 1000.0 * 1000.0 * 1000.0).round() as u64),
             _ => None,
         };
     }
 
     if length > 3 && string.ends_with("tib") {
         return match &string[..(length - 3)].parse::<f64>() {
-            Ok(size) => Some((*size * 1024.0 * 1024.0 * 1024.0 * 1024.0) as u64),
+            Ok(size) => Some((*size * 1024.0 * 1024.0 * 1024.0 * 1024.0).round() as u64),
             _ => None,
         };
     }
